@@ -26,6 +26,9 @@ def Q.one : Q ℝ := ⟨1, 0, 0, 0⟩
 theorem cutoff_val : (cutoff : ℝ) = 1 / 10000 := by
   unfold cutoff; norm_num
 
+theorem cutoffLog_val : (cutoffLog : ℝ) = 1 / 20000 := by
+  unfold cutoffLog; norm_num
+
 theorem V3.norm_def (r : V3 ℝ) : r.norm = Real.sqrt (r.x ^ 2 + r.y ^ 2 + r.z ^ 2) := by
   simp only [V3.norm, transc_sqrt]; congr 1; ring
 
@@ -129,17 +132,17 @@ theorem quatExp_vec_norm (r : V3 ℝ) (h : cutoff < r.norm) (hπ : r.norm < 2 * 
 
 /-! ### logarithm -/
 
-theorem quatLog_cut (q : Q ℝ) (h : q.vec.norm ≤ cutoff) : quatLog q = ⟨0, 0, 0⟩ := by
+theorem quatLog_cut (q : Q ℝ) (h : q.vec.norm ≤ cutoffLog) : quatLog q = ⟨0, 0, 0⟩ := by
   unfold quatLog
   simp only [gt_iff_lt, not_lt.mpr h, if_false]
 
-theorem quatLog_pos (q : Q ℝ) (h : cutoff < q.vec.norm) (hw : 0 ≤ q.w) :
+theorem quatLog_pos (q : Q ℝ) (h : cutoffLog < q.vec.norm) (hw : 0 ≤ q.w) :
     quatLog q = ⟨2 * Real.arccos q.w * q.x / q.vec.norm, 2 * Real.arccos q.w * q.y / q.vec.norm,
       2 * Real.arccos q.w * q.z / q.vec.norm⟩ := by
   unfold quatLog
   simp only [gt_iff_lt, h, if_true, not_lt.mpr hw, if_false, transc_acos]
 
-theorem quatLog_neg (q : Q ℝ) (h : cutoff < q.vec.norm) (hw : q.w < 0) :
+theorem quatLog_neg (q : Q ℝ) (h : cutoffLog < q.vec.norm) (hw : q.w < 0) :
     quatLog q = ⟨-2 * Real.arccos (-q.w) * q.x / q.vec.norm, -2 * Real.arccos (-q.w) * q.y / q.vec.norm,
       -2 * Real.arccos (-q.w) * q.z / q.vec.norm⟩ := by
   unfold quatLog
@@ -147,13 +150,17 @@ theorem quatLog_neg (q : Q ℝ) (h : cutoff < q.vec.norm) (hw : q.w < 0) :
 
 theorem cutoff_pos : (0 : ℝ) < cutoff := by rw [cutoff_val]; norm_num
 
+theorem cutoffLog_pos : (0 : ℝ) < cutoffLog := by rw [cutoffLog_val]; norm_num
+
+theorem two_cutoffLog : 2 * (cutoffLog : ℝ) = cutoff := by rw [cutoffLog_val, cutoff_val]; norm_num
+
 theorem vec_neg_norm (q : Q ℝ) : q.neg.vec.norm = q.vec.norm := by
   rw [V3.norm_def, V3.norm_def]; simp [Q.neg, Q.vec]
 
 /-- `q` and `-q` give the same rotation vector (away from the exact half turn `w = 0`). -/
 theorem quatLog_neg_eq (q : Q ℝ) (hw : q.w ≠ 0) : quatLog q.neg = quatLog q := by
-  by_cases h : cutoff < q.vec.norm
-  · have h' : cutoff < q.neg.vec.norm := by rw [vec_neg_norm]; exact h
+  by_cases h : cutoffLog < q.vec.norm
+  · have h' : cutoffLog < q.neg.vec.norm := by rw [vec_neg_norm]; exact h
     rcases lt_or_gt_of_ne hw with hneg | hpos
     · have hw' : 0 ≤ q.neg.w := by simp only [Q.neg]; linarith
       rw [quatLog_pos _ h' hw', quatLog_neg _ h hneg, vec_neg_norm]
@@ -161,13 +168,13 @@ theorem quatLog_neg_eq (q : Q ℝ) (hw : q.w ≠ 0) : quatLog q.neg = quatLog q 
     · have hw' : q.neg.w < 0 := by simp only [Q.neg]; linarith
       rw [quatLog_neg _ h' hw', quatLog_pos _ h hpos.le, vec_neg_norm]
       ext <;> simp only [Q.neg, neg_neg] <;> ring
-  · have h' : q.neg.vec.norm ≤ cutoff := by rw [vec_neg_norm]; exact not_lt.mp h
+  · have h' : q.neg.vec.norm ≤ cutoffLog := by rw [vec_neg_norm]; exact not_lt.mp h
     rw [quatLog_cut _ h', quatLog_cut _ (not_lt.mp h)]
 
 /-- norm of the logarithm in the regular branch: `2 acos |w|` -/
-theorem quatLog_norm (q : Q ℝ) (h : cutoff < q.vec.norm) :
+theorem quatLog_norm (q : Q ℝ) (h : cutoffLog < q.vec.norm) :
     (quatLog q).norm = 2 * Real.arccos |q.w| := by
-  have hn : 0 < q.vec.norm := lt_trans cutoff_pos h
+  have hn : 0 < q.vec.norm := lt_trans cutoffLog_pos h
   by_cases hw : q.w < 0
   · rw [quatLog_neg q h hw]
     have := norm_scaled (-2 * Real.arccos (-q.w)) q.vec hn
@@ -183,7 +190,7 @@ theorem quatLog_norm (q : Q ℝ) (h : cutoff < q.vec.norm) :
 
 /-- differences never exceed `π` in norm (no hypothesis on `q`) -/
 theorem quatLog_norm_le_pi (q : Q ℝ) : (quatLog q).norm ≤ π := by
-  by_cases h : cutoff < q.vec.norm
+  by_cases h : cutoffLog < q.vec.norm
   · rw [quatLog_norm q h]
     have : Real.arccos |q.w| ≤ π / 2 := Real.arccos_le_pi_div_two.mpr (abs_nonneg _)
     linarith
@@ -193,10 +200,10 @@ theorem quatLog_norm_le_pi (q : Q ℝ) : (quatLog q).norm ≤ π := by
 
 /-- exact inverse when both cut-offs are cleared -/
 theorem quatLog_quatExp (r : V3 ℝ) (h1 : cutoff < r.norm) (h2 : r.norm < π)
-    (h3 : cutoff < Real.sin (r.norm / 2)) : quatLog (quatExp r) = r := by
+    (h3 : cutoffLog < Real.sin (r.norm / 2)) : quatLog (quatExp r) = r := by
   have hn : 0 < r.norm := lt_trans cutoff_pos h1
   have hvn := quatExp_vec_norm r h1 (by linarith [Real.pi_pos])
-  have hs : 0 < Real.sin (r.norm / 2) := lt_trans cutoff_pos h3
+  have hs : 0 < Real.sin (r.norm / 2) := lt_trans cutoffLog_pos h3
   have hc : 0 < Real.cos (r.norm / 2) :=
     Real.cos_pos_of_mem_Ioo ⟨by linarith [Real.pi_pos], by linarith⟩
   have hw : (quatExp r).w = Real.cos (r.norm / 2) := by rw [quatExp_regular r h1]
@@ -205,12 +212,12 @@ theorem quatLog_quatExp (r : V3 ℝ) (h1 : cutoff < r.norm) (h2 : r.norm < π)
   rw [quatExp_regular r h1]
   ext <;> simp only <;> field_simp
 
-/-- in every other case (‖r‖ < π) the round trip returns the zero vector and `sin(‖r‖/2) ≤ 1e-4` -/
+/-- in every other case (‖r‖ < π) the round trip returns the zero vector and `sin(‖r‖/2) ≤ 5e-5` -/
 theorem quatLog_quatExp_small (r : V3 ℝ) (h2 : r.norm < π)
-    (h : ¬ (cutoff < r.norm ∧ cutoff < Real.sin (r.norm / 2))) :
-    quatLog (quatExp r) = ⟨0, 0, 0⟩ ∧ Real.sin (r.norm / 2) ≤ cutoff := by
+    (h : ¬ (cutoff < r.norm ∧ cutoffLog < Real.sin (r.norm / 2))) :
+    quatLog (quatExp r) = ⟨0, 0, 0⟩ ∧ Real.sin (r.norm / 2) ≤ cutoffLog := by
   by_cases h1 : cutoff < r.norm
-  · have h3 : Real.sin (r.norm / 2) ≤ cutoff := by
+  · have h3 : Real.sin (r.norm / 2) ≤ cutoffLog := by
       by_contra hc; exact h ⟨h1, not_le.mp hc⟩
     refine ⟨?_, h3⟩
     apply quatLog_cut
@@ -219,44 +226,41 @@ theorem quatLog_quatExp_small (r : V3 ℝ) (h2 : r.norm < π)
     constructor
     · rw [quatExp_cut r hle]
       apply quatLog_cut
-      simp only [Q.vec]; rw [V3.norm_zero]; exact cutoff_pos.le
+      simp only [Q.vec]; rw [V3.norm_zero]; exact cutoffLog_pos.le
     · have h0 := V3.norm_nonneg r
       have : Real.sin (r.norm / 2) ≤ r.norm / 2 := Real.sin_le (by linarith)
-      linarith
+      linarith [two_cutoffLog]
 
-/-- `sin(n/2) ≤ 1e-4` with `0 ≤ n < π` forces `n ≤ 2 arcsin(1e-4)` -/
-theorem small_of_sin_le {n : ℝ} (h0 : 0 ≤ n) (hπ : n < π) (hs : Real.sin (n / 2) ≤ cutoff) :
-    n ≤ 2 * Real.arcsin cutoff := by
+/-- `sin(n/2) ≤ 5e-5` with `0 ≤ n < π` forces `n ≤ 2 arcsin(5e-5)` -/
+theorem small_of_sin_le {n : ℝ} (h0 : 0 ≤ n) (hπ : n < π) (hs : Real.sin (n / 2) ≤ cutoffLog) :
+    n ≤ 2 * Real.arcsin cutoffLog := by
   have : Real.arcsin (Real.sin (n / 2)) = n / 2 :=
     Real.arcsin_sin (by linarith [Real.pi_pos]) (by linarith)
   have hm := Real.monotone_arcsin hs
   rw [this] at hm
   linarith
 
-/-- numerically: `2 arcsin(1e-4) < 2.00000001e-4` -/
-theorem two_arcsin_cutoff_lt : 2 * Real.arcsin cutoff < 2.00000001e-4 := by
-  have ht : (1.000000005e-4 : ℝ) ∈ Set.Icc (-(π / 2)) (π / 2) :=
-    ⟨by linarith [Real.pi_pos, show (0 : ℝ) < 1.000000005e-4 by norm_num],
-     by linarith [Real.pi_gt_three, show (1.000000005e-4 : ℝ) < 1 by norm_num]⟩
-  have hsin : cutoff < Real.sin 1.000000005e-4 := by
-    have h := Real.sin_gt_sub_cube (x := 1.000000005e-4) (by norm_num)
+/-- numerically: `2 arcsin(5e-5) < 1.00000001e-4` -/
+theorem two_arcsin_cutoffLog_lt : 2 * Real.arcsin cutoffLog < 1.00000001e-4 := by
+  have hsin : cutoffLog < Real.sin 5.00000005e-5 := by
+    have h := Real.sin_gt_sub_cube (x := 5.00000005e-5) (by norm_num)
     refine lt_trans ?_ h
-    rw [cutoff_val]; norm_num
-  have : Real.arcsin cutoff < 1.000000005e-4 := by
+    rw [cutoffLog_val]; norm_num
+  have : Real.arcsin cutoffLog < 5.00000005e-5 := by
     rw [Real.arcsin_lt_iff_lt_sin' ?_]
     · exact hsin
-    · exact ⟨by linarith [Real.pi_pos], by linarith [Real.pi_gt_three]⟩
+    · exact ⟨by linarith [Real.pi_pos, show (0 : ℝ) < 5.00000005e-5 by norm_num],
+        by linarith [Real.pi_gt_three, show (5.00000005e-5 : ℝ) < 1 by norm_num]⟩
   linarith
 
-/-- and `2e-4 < 2 arcsin(1e-4)`: the honest bound exceeds the nominal one -/
-theorem two_cutoff_lt_two_arcsin : 2 * cutoff < 2 * Real.arcsin cutoff := by
-  have h1 : cutoff ∈ Set.Ioc (0 : ℝ) 1 := ⟨cutoff_pos, by rw [cutoff_val]; norm_num⟩
-  have hpos : 0 < Real.arcsin cutoff := Real.arcsin_pos.mpr cutoff_pos
-  have hle : Real.arcsin cutoff ≤ π / 2 := Real.arcsin_le_pi_div_two _
-  have hs : Real.sin (Real.arcsin cutoff) = cutoff :=
-    Real.sin_arcsin (by linarith [cutoff_pos]) h1.2
-  have : Real.sin (Real.arcsin cutoff) < Real.arcsin cutoff := Real.sin_lt hpos
-  linarith
+/-- and `1e-4 < 2 arcsin(5e-5)`: the logarithm's cut-off still reaches a hair beyond the exponential's -/
+theorem cutoff_lt_two_arcsin : cutoff < 2 * Real.arcsin cutoffLog := by
+  have h1 : (cutoffLog : ℝ) ≤ 1 := by rw [cutoffLog_val]; norm_num
+  have hpos : 0 < Real.arcsin cutoffLog := Real.arcsin_pos.mpr cutoffLog_pos
+  have hs : Real.sin (Real.arcsin cutoffLog) = cutoffLog :=
+    Real.sin_arcsin (by linarith [cutoffLog_pos]) h1
+  have : Real.sin (Real.arcsin cutoffLog) < Real.arcsin cutoffLog := Real.sin_lt hpos
+  linarith [two_cutoffLog]
 
 theorem V3.sub_self_norm (r : V3 ℝ) : (r.sub r).norm = 0 := by
   rw [V3.norm_def]; simp [V3.sub]
@@ -274,9 +278,9 @@ theorem vec_norm_of_unit (q : Q ℝ) (hq : q.normSq = 1) : q.vec.norm = Real.sqr
   rw [V3.norm_def]; congr 1; unfold Q.normSq at hq; simp only [Q.vec]; linarith
 
 /-- exact inverse on unit quaternions with `w ≥ 0` outside the cut-off -/
-theorem quatExp_quatLog (q : Q ℝ) (hq : q.normSq = 1) (hw : 0 ≤ q.w) (h : cutoff < q.vec.norm) :
+theorem quatExp_quatLog (q : Q ℝ) (hq : q.normSq = 1) (hw : 0 ≤ q.w) (h : cutoffLog < q.vec.norm) :
     quatExp (quatLog q) = q := by
-  have hn : 0 < q.vec.norm := lt_trans cutoff_pos h
+  have hn : 0 < q.vec.norm := lt_trans cutoffLog_pos h
   obtain ⟨hw1, hw2⟩ := abs_w_le_one q hq
   have hvn := vec_norm_of_unit q hq
   have hsin : Real.sin (Real.arccos q.w) = q.vec.norm := by rw [Real.sin_arccos, hvn]
@@ -284,7 +288,7 @@ theorem quatExp_quatLog (q : Q ℝ) (hq : q.normSq = 1) (hw : 0 ≤ q.w) (h : cu
     rw [← hsin]; exact Real.sin_le (Real.arccos_nonneg _)
   have hln : (quatLog q).norm = 2 * Real.arccos q.w := by
     rw [quatLog_norm q h, abs_of_nonneg hw]
-  have hc : cutoff < (quatLog q).norm := by rw [hln]; linarith
+  have hc : cutoff < (quatLog q).norm := by rw [hln]; linarith [two_cutoffLog]
   have ha : 0 < Real.arccos q.w := lt_of_lt_of_le hn hacos
   rw [quatExp_regular _ hc, hln, quatLog_pos q h hw]
   have h2 : 2 * Real.arccos q.w / 2 = Real.arccos q.w := by ring
@@ -305,24 +309,5 @@ theorem quatSum_quatDiff (p q : Q ℝ) :
 
 theorem mul_conj_mul_cancel (p q : Q ℝ) (hq : q.normSq = 1) : (p.mul q.conj).mul q = p := by
   rw [mul_assoc', conj_mul_self, hq, mul_one']
-
-/-! ### the witness of the cut-off sliver: `r = (2.000000001e-4, 0, 0)` -/
-
-def rSliver : V3 ℝ := ⟨2.000000001e-4, 0, 0⟩
-
-theorem rSliver_norm : rSliver.norm = 2.000000001e-4 := by
-  rw [V3.norm_def]
-  simp only [rSliver]
-  rw [show (2.000000001e-4 : ℝ) ^ 2 + 0 ^ 2 + 0 ^ 2 = (2.000000001e-4 : ℝ) ^ 2 by ring]
-  exact Real.sqrt_sq (by norm_num)
-
-theorem rSliver_sin : Real.sin (rSliver.norm / 2) ≤ cutoff := by
-  rw [rSliver_norm, cutoff_val]
-  have hb := Real.sin_bound (x := 2.000000001e-4 / 2) (by rw [abs_of_pos] <;> norm_num)
-  have h1 := (abs_le.mp hb).2
-  rw [abs_of_pos (by norm_num : (0 : ℝ) < 2.000000001e-4 / 2)] at h1
-  have h2 : (2.000000001e-4 / 2 : ℝ) - (2.000000001e-4 / 2) ^ 3 / 6 + (2.000000001e-4 / 2) ^ 5 / 100 ≤ 1 / 10000 := by
-    norm_num
-  linarith
 
 end BFL.Quat
